@@ -56,6 +56,8 @@ func detPool(inc string, yield func()) []pongo2.Context {
 		if fail {
 			ctx["bigdec"], ctx["bigpad"], ctx["plur"] = 2000+d, 20000+d, "a,b,c"
 		}
+		// an output well beyond any buffer-size threshold (kept ExecuteBytes results are compared at the end of the history)
+		ctx["bigtext"] = strings.Repeat(s+"-0123456789abcdef-", 1500+100*d)
 		ctx["maybe"] = func() (string, error) {
 			if yield != nil {
 				yield()
@@ -68,14 +70,16 @@ func detPool(inc string, yield func()) []pongo2.Context {
 		return ctx
 	}
 	pool0 := mk("A<a>", 5, false, []string{"x", "y", "z"}, true)
-	pool0["rec"] = DetRecA{1, "na<m>e", "e@x"}
 	pool1 := mk("B&b", 0, true, []string{"q"}, false)
-	pool1["rec"] = DetRecB{"nb"}
 	pool4 := mk("A<a>", 5, false, []string{"x", "y", "z"}, true)
-	pool4["rec"] = DetRecA{1, "na<m>e", "e@x"}
 	pool5 := mk("Dd", 1, true, []string{"1", "1", "2", "2", "1"}, false)
-	pool5["rec"] = &DetRecA{2, "pa", "pe@x"}
 	swapped := mk("Cc", 2, false, []string{}, true)
+	pool0["rec"] = DetRecA{1, "na<m>e", "e@x"}
+	// distinct struct types that print alike (reflect.Type.String() is equal): same field names, other layouts
+	pool0["twin"], pool1["twin"], pool4["twin"], pool5["twin"], swapped["twin"] = c8TwinA("p0"), c8TwinB("p1"), c8TwinA("p0"), c8TwinB("p5"), c8TwinC("sw")
+	pool1["rec"] = DetRecB{"nb"}
+	pool4["rec"] = DetRecA{1, "na<m>e", "e@x"}
+	pool5["rec"] = &DetRecA{2, "pa", "pe@x"}
 	swapped["rec"] = DetRecC{"ce@x", nil, "nc", 3}
 	// same names, other dynamic types: value <-> pointer, slice <-> array, int <-> float
 	swapped["z_struct"], swapped["z_pstruct"] = swapped["z_pstruct"], swapped["z_struct"]
@@ -103,6 +107,9 @@ func detProgram(r *Rng) detProg {
 			"\n  {% if flag %}\n  yes\n  {% endif %}\n{% for i in lst %}\n  {{ i }}\n{% endfor %}\n",
 			"{% macro mm(a) %}[{{ a }}{{ s }}{% cycle \"o\" \"e\" %}]{% endmacro %}{{ mm(1) }}{{ mm(d) }}",
 			"{{ 100 / d }}tail",
+			"{{ twin.Name }}|{{ twin.Note }}|{{ twin.N }}|{{ twin[\"Note\"] }}|{% if \"Name\" in twin %}has{% endif %}|{% for i in lst %}{{ twin.Note }}{% endfor %}",
+			"{{ twin.Note|upper }}{% with t=twin %}{{ t.Name }}{{ t.N }}{% endwith %}",
+			"{{ bigtext }}|{{ s }}", "{% for i in lst %}{{ bigtext|upper }}{% endfor %}{{ n }}", "{% filter lower %}{{ bigtext }}{{ bigtext }}{% endfilter %}{{ d }}",
 			"head{{ maybe() }}",
 			"{% with w=maybe() %}{{ w }}{% endwith %}",
 			"{% spaceless %}<a> {{ s }} <b>{% endspaceless %}{% filter upper %}{{ s }}{% endfilter %}",
